@@ -57,7 +57,9 @@ type CaseStats struct {
 func (c *CaseStats) Label(l string) { c.labels = append(c.labels, l) }
 
 // Labelf adds a formatted label
-func (c *CaseStats) Labelf(f string, a ...interface{}) { c.labels = append(c.labels, fmt.Sprintf(f, a...)) }
+func (c *CaseStats) Labelf(f string, a ...interface{}) {
+	c.labels = append(c.labels, fmt.Sprintf(f, a...))
+}
 
 // Nontrivial marks the case as non-trivial by the property's rule
 func (c *CaseStats) Nontrivial() { c.nontrivial = true }
@@ -227,11 +229,11 @@ func (c *Collector) flush() {
 }
 
 type violationFile struct {
-	ID    string          `json:"property_id"`
-	Error string          `json:"error"`
-	Case  json.RawMessage `json:"case"`
-	Seed  uint64          `json:"seed"`
-	Shard string          `json:"shard"`
+	ID    string            `json:"property_id"`
+	Error string            `json:"error"`
+	Case  json.RawMessage   `json:"case"`
+	Seed  uint64            `json:"seed"`
+	Shard string            `json:"shard"`
 	Env   map[string]string `json:"env"`
 }
 
